@@ -21,9 +21,29 @@ git -C $WT checkout -q -- .
 echo "tests_with_change: $T"; echo "demo_with_change_exit: $DW   demo_without_change_exit: $DO"
 D=/verif/seeded/$P-$V; mkdir -p $D; cp $PATCH $D/patch.diff; cp $DEMO $D/demo.py
 python3 - <<PY
-import json
-json.dump({"property": "$P", "variant": "$V", "tests_with_change": """$T""", "demo_exit_with_change": $DW, "demo_exit_without_change": $DO,
- "confirmed": ("45 passed" in """$T""") and $DW != 0 and $DO == 0, "checks": "$RES",
+import json, os, re
+caught = []
+for C in "$P $*".split():
+    f = "$OUT/${V}_check_%s.out" % C
+    if os.path.exists(f):
+        for l in open(f):
+            m = re.search(r"VIOLATION property=(\S+) replay=\S+ obligation=(\S+)(.*)", l)
+            if m:
+                tag = "[P]" if "/" in m.group(2) else "[B]"
+                x = f"{tag} {m.group(1)}:{m.group(2)}" + (" (no-failing-input-found)" if "no-failing-input-found" in m.group(3) else "")
+                if x not in caught:
+                    caught.append(x)
+            elif l.startswith("UNDECIDED"):
+                x = "[P] undecided (exit 2): " + l.strip()[:160]
+                if x not in caught:
+                    caught.append(x)
+needs = {}
+if os.path.exists("/verif/seeded/NEEDS.json"):
+    needs = json.load(open("/verif/seeded/NEEDS.json"))
+json.dump({"property": "$P", "variant": "$V", "breaks": needs.get("$P-$V", {}).get("breaks", "property $P"),
+ "needs_to_manifest": needs.get("$P-$V", {}).get("needs", ""),
+ "tests_with_change": """$T""", "demo_exit_with_change": $DW, "demo_exit_without_change": $DO,
+ "confirmed": ("45 passed" in """$T""") and $DW != 0 and $DO == 0, "checks": "$RES", "caught_by": caught,
  "ran": "scratch worktree $WT: git apply patch; full test suite; demo (PYTHONPATH=worktree); PYVC_REPO=<worktree> ./check <id> --tier quick; git checkout -- .; demo again"},
  open("$D/meta.json", "w"), indent=1)
 PY
